@@ -47,8 +47,14 @@ SUFFIXES = (".log", ".log.gz", ".log.bz2", ".log.xz", ".log.lz4", ".tar", ".jour
 def valid_base(rng):
     """-> (name, plain bytes, kind, container-encoded bytes)"""
     k = rng.choice(("text", "text", "text", "utmp", "utmp", "evtx", "evtx", "journal"))
-    if k == "text":
-        p = world.TextLogParams(n_msgs=rng.randint(1, 12), src_letter=b"F", cont_p=0.3)
+    if k == "text" and rng.random() < 0.25:
+        # stamps without a year: the reader walks such a file backwards first (damage at its head meets that walk)
+        import c11
+        content = c11.gen_source(rng, "f.log", b"F", 0, rng.choice((0, 1)), rng.choice((2, 5, 12))).plain
+        base = "f.log"
+    elif k == "text":
+        nt = rng.choice((1, 1, 1, 2, 0, 6, 8))
+        p = world.TextLogParams(n_msgs=rng.randint(1, 12), src_letter=b"F", cont_p=0.3, notation=nt, frac_digits=3)
         content, _, _ = world.gen_text_log(rng, p)
         base = "f.log"
     elif k == "utmp":
